@@ -87,7 +87,7 @@ static void answer(int status, const char *p, esl_pos_t n, int z)
   if (p == h_poison) { h_out("%s UNTOUCHED-OUT-PARAM n=%" PRId64, h_status(status), (int64_t) n); return; }
   if (bf && stable_on) {
     if (bf->anchor == -1) { stable_on = 0; nsaved = 0; }
-    else if (bf->mem != stable_mem) { moved = 1; nsaved = 0; }
+    else if (bf->mem != stable_mem) { moved = 1; }   /* the saved pointers are kept: `checkstable` reads through them */
     else for (i = 0; i < nsaved; i++) if (memcmp(saved[i].p, saved[i].copy, saved[i].len) != 0) stale = 1;
   }
   { char abuf[64] = "a=-";   /* the anchor in input coordinates and its count: anchors must be released, or a stream is kept in memory for ever */
@@ -400,6 +400,15 @@ static void h_op(void)
     return;
   }
   if (!bf) { h_out("bad-op"); return; }
+  if (!strcmp(op, "checkstable")) {
+    /* read through every pointer handed out since the stable anchor was set ("remain valid at least until the anchor is raised"):
+     * if buffer_refill() freed the block they point into, ASan stops us here (heap-use-after-free) */
+    int i, bad = 0;
+    if (stable_on && bf->anchor != -1)
+      for (i = 0; i < nsaved; i++) if (memcmp(saved[i].p, saved[i].copy, saved[i].len) != 0) bad = 1;
+    h_out(bad ? "stale" : "ok");
+    return;
+  }
 
   /* Operations OUTSIDE the API contract (try...): executed unless they violate the one duty left to the caller
    * (lean/EaselModel/Buffer/Safe.lean: CallerOk, evaluated here on the real ESL_BUFFER), then answered "unsafe":
